@@ -274,6 +274,10 @@ def _where1(c, x, y):
     if isinstance(c, SBool):
         if ITE_MODE[0] and isinstance(x, (SReal, int, float, Fraction)) and isinstance(y, (SReal, int, float, Fraction)):
             x, y = _fl(x), _fl(y)
+            from .scalar import FP_MODE
+            if FP_MODE[0]:
+                from .scalar_fp import SFP
+                return SFP(z3.If(c.e, x.z(), y.z()))
             if not x.is_special and not y.is_special:
                 return SReal.sym(z3.If(c.e, x.z(), y.z()))
         return x if bool(c) else y
